@@ -85,19 +85,18 @@ def sysDec (cfg : Cfg) : List Nat → MS → Nat → MS
   | [], x, _ => x
   | q :: rest, x, r => sysDec cfg rest (dec cfg (cfg.chainOf q) (touch cfg x r q) r) r
 
-def endFlows (cfg : Cfg) (x : MS) (r : Nat) : MS :=
-  let x1 := sysDec cfg cfg.sysDecs x r
-  { x1 with s := micro cfg x1.s (.rmPop r) }
+def endFlows (cfg : Cfg) (x : MS) (r : Nat) (tx : Tx) : MS :=
+  drop cfg (sysDec cfg (cfg.sysDecsFor tx) x r) r
 
-def reqEvent (cfg : Cfg) (x : MS) (r : Nat) (post : Bool) : MS × Verdict :=
-  let p := userFlow cfg cfg.order (sysInc cfg cfg.sysStart x r) r
-  if !p.2 then (endFlows cfg (drop cfg p.1 r) r, .refused)
-  else if cfg.early && post then (endFlows cfg (drop cfg p.1 r) r, .early)
+def reqEvent (cfg : Cfg) (x : MS) (r : Nat) (tx : Tx) : MS × Verdict :=
+  let p := userFlow cfg cfg.order (sysInc cfg (cfg.sysStartFor tx) x r) r
+  if !p.2 then (endFlows cfg (drop cfg p.1 r) r tx, .refused)
+  else if cfg.early && tx.post then (endFlows cfg (drop cfg p.1 r) r tx, .early)
   else (p.1, .admitted)
 
 def event (cfg : Cfg) (x : MS) : Event → MS × Verdict
-  | .req r post => reqEvent cfg x r post
-  | .resp r => (endFlows cfg x r, .none)
+  | .req r tx => reqEvent cfg x r tx
+  | .resp r tx => (endFlows cfg x r tx, .none)
   | .err r => (drop cfg x r, .none)
   | .adv d => ({ x with s := advance cfg x.s d }, .none)
 
